@@ -146,6 +146,16 @@ def check_hall_yarbrough(ctx):
 
     idx = next((k for k, st in enumerate(loop.body) if is_update(st)), None)
     if idx is None:
+        # y = g(y - f / df): an update wrapped in something (a clamp, a projection): the statement that re-binds a name
+        # from an expression containing `name - ...`
+        def is_wrapped_update(st):
+            if isinstance(st, ast.Assign) and len(st.targets) == 1 and isinstance(st.targets[0], ast.Name):
+                nm = st.targets[0].id
+                return any(isinstance(n, ast.BinOp) and isinstance(n.op, ast.Sub) and isinstance(n.left, ast.Name) and n.left.id == nm for n in ast.walk(st.value))
+            return False
+
+        idx = next((k for k, st in enumerate(loop.body) if is_wrapped_update(st)), None)
+    if idx is None:
         raise AnalysisError(f"{q}: no Newton update `y = y - f/df` at the top level of the loop body")
     early = [n.lineno for st in loop.body[:idx] for n in ast.walk(st) if isinstance(n, (ast.Break, ast.Return))]
     it = interp(ctx)
@@ -336,11 +346,17 @@ def check_hy_equation(ctx, it, q, f, loop):
                 for s2 in loop.body:
                     if isinstance(s2, ast.Assign) and len(s2.targets) == 1 and isinstance(s2.targets[0], ast.Name) and s2.targets[0].id == st.value.right.id and isinstance(s2.value, ast.BinOp) and isinstance(s2.value.op, ast.Div):
                         upd, quot = st, s2.value
-    if upd is None or upd.targets[0].id != "y" and False:
-        raise AnalysisError(f"{q}: Newton update of the form y = y - f / df not found")
-    yname = upd.targets[0].id
-    quot = quot if quot is not None else upd.value.right
-    num, den = quot.left, quot.right
+    if upd is None:
+        # no statement of the plain form: the iterate is whatever name the loop re-binds from `name - ...`; the step is
+        # compared as a whole below
+        cands_ = [st.targets[0].id for st in loop.body if isinstance(st, ast.Assign) and len(st.targets) == 1 and isinstance(st.targets[0], ast.Name) and any(isinstance(n, ast.BinOp) and isinstance(n.op, ast.Sub) and isinstance(n.left, ast.Name) and n.left.id == st.targets[0].id for n in ast.walk(st.value))]
+        if len(cands_) != 1:
+            raise AnalysisError(f"{q}: Newton update of the form y = y - f / df not found")
+        yname, num, den = cands_[0], None, None
+    else:
+        yname = upd.targets[0].id
+        quot = quot if quot is not None else upd.value.right
+        num, den = quot.left, quot.right
     if isinstance(num, ast.BinOp) and isinstance(num.op, ast.Mult) and isinstance(den, ast.Name):
         # y - c * f / df: a damped (or over-relaxed) step.  With the routine's absolute stopping test taken before the
         # last update and its fixed tiny start value, the iterate that is returned is then not the Newton iterate
